@@ -314,7 +314,21 @@ def main():
     replays_left = 30
     unreplayed = 0
     kf_seen = {}
-    for key in sorted(groups, key=lambda k: min(case_sort_key(v["case"], space_order) for v in groups[k])):
+    ordered_keys = sorted(groups, key=lambda k: min(case_sort_key(v["case"], space_order) for v in groups[k]))
+    # The replays of the first groups are independent processes: run them side by side, so that a change which makes many
+    # cases hang (each replay then lasts until the per-case timeout) does not turn the report into an hour of serial waiting.
+    spec = {}
+    if len(ordered_keys) > 1:
+        import concurrent.futures
+        firsts = [(k, sorted(groups[k], key=lambda v: case_sort_key(v["case"], space_order))[0]["case"]) for k in ordered_keys[:30]]
+        with concurrent.futures.ThreadPoolExecutor(max_workers=10) as ex:
+            futs = {k: ex.submit(replay_case, binpath, tier, c, env, scratch, "s%d" % i) for i, (k, c) in enumerate(firsts)}
+            for k, f in futs.items():
+                try:
+                    spec[k] = f.result()
+                except Exception:
+                    pass
+    for key in ordered_keys:
         vs = sorted(groups[key], key=lambda v: case_sort_key(v["case"], space_order))
         first = vs[0]
         kf = next((f for f in findings if key_matches(key, f["key"])), None)
@@ -329,7 +343,7 @@ def main():
             unreplayed += 1
             continue
         replays_left -= 1
-        rkeys, rcrash, _, rerr = replay_case(binpath, tier, first["case"], env, scratch, "v%d" % n)
+        rkeys, rcrash, _, rerr = spec[key] if key in spec else replay_case(binpath, tier, first["case"], env, scratch, "v%d" % n)
         ok = (key in rkeys) or (key.startswith("crash:") and rcrash is not None)
         if not ok:
             rec["replay_observed"] = {"keys": sorted(rkeys), "crash": rcrash}
